@@ -461,8 +461,11 @@ func randomU(w *tr.W, r *rng.R, cases, big int) {
 	for c := 0; c < cases; c++ {
 		n := pickN(r, big)
 		vals := make([]uint64, n)
-		shape := r.Intn(8)
+		shape := r.Intn(10)
 		base := r.U64()
+		tops := []uint64{0x80, 0x00, 0x7f, 0xff, 0x01, 0x81, 0xfe}
+		top := tops[r.Intn(len(tops))]
+		second := tops[r.Intn(len(tops))]
 		pos := uint(r.Intn(8)) * 8
 		keep := uint(r.Intn(8)) // number of shared top bytes for the deep-recursion shape
 		for i := range vals {
@@ -487,6 +490,13 @@ func randomU(w *tr.W, r *rng.R, cases, big int) {
 				vals[i] = base&^(0xff<<pos)&^(0xff<<56) | uint64(r.Intn(256))<<pos | uint64(r.Intn(4)*0x55)<<56
 			case 7: // few distinct values
 				vals[i] = boundaryI[r.Intn(4)] ^ uint64(r.Intn(2))<<pos
+			case 8: // one extreme top-byte bucket (0x00, 0x7f, 0x80, 0xff, ...) filled with random lower bytes
+				vals[i] = top<<56 | r.U64()>>8
+			case 9: // extreme top and second bytes: the first and last buckets of two levels
+				vals[i] = top<<56 | second<<48 | r.U64()>>16
+				if r.Chance(1, 4) {
+					vals[i] = tops[r.Intn(len(tops))]<<56 | r.U64()>>8
+				}
 			}
 		}
 		if c%2 == 0 {
